@@ -4,7 +4,10 @@
 use crate::{Label, Sodg};
 use anyhow::Result;
 use log::trace;
+#[cfg(not(feature = "verif"))]
 use std::collections::HashSet;
+#[cfg(feature = "verif")]
+use crate::verif::collections::HashSet;
 
 impl<const N: usize> Sodg<N> {
     /// Take a slice of the graph, keeping only the vertex specified
